@@ -162,7 +162,15 @@ class MacroGen:
                 self.feats.add('comma-in-parens')
             else:
                 toks.append(self.plain_tok())
-        return ' '.join(toks)
+        out = ''
+        for t in toks:
+            # a literal directly followed by the next token (no white space): lexically safe
+            if out and out[-1] in '"\'' and t[0] not in '"\'' and r.random() < 0.5:
+                out += t
+                self.feats.add('literal-adjacent-token')
+            else:
+                out += (' ' if out else '') + t
+        return out
 
     def by_name(self, n):
         for m in self.macros:
